@@ -20,6 +20,73 @@ POS_METHODS = ("substr", "compare", "erase", "insert", "replace", "at")
 
 
 _ALIAS = {}   # decl id -> X, for locals `n = X.size()` of the function being judged
+_SUBJ = {}    # decl id -> canonical subject, for locals `s = obj.accessor()` where accessor returns a field
+_DB = [None]
+
+
+def _trivial_accessor(f):
+    """Field name F if the repo function's body is `return F;` / `return F.empty()|size()|length();` -> (F, method or None)."""
+    db = _DB[0]
+    if db is None:
+        return None
+    for g in db.fns(f):
+        rets = [r for r in g.walk() if r.get("k") == "ret" and r.get("e") is not None]
+        stm = g.body.get("s", []) if g.body else []
+        if len(rets) != 1 or len(stm) != 1:
+            continue
+        e = strip_casts(rets[0]["e"])
+        if e is not None and e.get("k") == "mem" and peel(e.get("b")) is not None and peel(e.get("b")).get("k") == "this":
+            return (e["n"].split("::")[-1], None)
+        if e is not None and e.get("k") == "call" and "this" in e and callee_short(e) in ("empty", "size", "length"):
+            o = strip_casts(e["this"])
+            if o is not None and o.get("k") == "mem" and peel(o.get("b")) is not None and peel(o.get("b")).get("k") == "this":
+                return (o["n"].split("::")[-1], callee_short(e))
+    return None
+
+
+def _obj_name(o):
+    o = peel(o)
+    if o is None or o.get("k") == "this":
+        return ""
+    return show(o) + "."
+
+
+def subject(n):
+    """Canonical name of a string-valued expression (sees through field accessors and local copies of them)."""
+    n = strip_casts(n)
+    if n is None:
+        return None
+    if n.get("k") == "ref" and n.get("d") in _SUBJ:
+        return _SUBJ[n["d"]]
+    if n.get("k") == "call" and "this" in n and n.get("f") and not n["f"].startswith("std::"):
+        ta = _trivial_accessor(n["f"])
+        if ta and ta[1] is None:
+            return _obj_name(n["this"]) + ta[0]
+    return show(n)
+
+
+def local_subjects(fn):
+    out = {}
+    for n in fn.walk():
+        if n.get("k") == "decls":
+            for d in n["d"]:
+                i = strip_casts(d.get("init")) if d.get("init") else None
+                while i is not None and i.get("k") == "ctor" and len(i.get("a", [])) == 1:
+                    i = strip_casts(i["a"][0])
+                if i is not None and i.get("k") == "call" and "this" in i and i.get("f") and not i["f"].startswith("std::"):
+                    ta = _trivial_accessor(i["f"])
+                    if ta and ta[1] is None:
+                        out[d["d"]] = _obj_name(i["this"]) + ta[0]
+    # drop locals that are written again
+    for n in fn.walk():
+        tgt = None
+        if n.get("k") == "bin" and n.get("op", "").endswith("=") and n.get("op") not in ("==", "!=", "<=", ">="):
+            tgt = strip_casts(n["x"])
+        elif n.get("k") == "call" and n.get("opc") and callee_short(n) in ("operator=", "operator+=") and n.get("a"):
+            tgt = strip_casts(n["a"][0])
+        if tgt is not None and tgt.get("k") == "ref" and tgt.get("d") in out:
+            del out[tgt["d"]]
+    return out
 
 
 def size_aliases(fn):
@@ -52,7 +119,12 @@ def _size_call(n):
     """If n is X.size()/X.length() (or a local alias of it) return show(X)."""
     n = strip_casts(n)
     if n is not None and n.get("k") == "call" and "this" in n and callee_short(n) in ("size", "length"):
-        return show(peel(n["this"]))
+        if n.get("f", "").startswith("std::"):
+            return subject(n["this"])
+        ta = _trivial_accessor(n["f"])
+        if ta and ta[1] in ("size", "length"):
+            return _obj_name(n["this"]) + ta[0]
+        return subject(n["this"])
     if n is not None and n.get("k") == "ref" and n.get("d") in _ALIAS:
         return _ALIAS[n["d"]]
     return None
@@ -83,9 +155,14 @@ def _implies_size_ge(atom, pos, X, k, Y=None):
     if atom is None:
         return False
     kind = atom.get("k")
-    # !X.empty()
-    if kind == "call" and "this" in atom and callee_short(atom) == "empty" and show(peel(atom["this"])) == X:
-        return (not pos) and Y is None and k <= 1
+    # !X.empty()   (also through a class's own empty() that forwards to a string member)
+    if kind == "call" and "this" in atom and callee_short(atom) == "empty":
+        subj = subject(atom["this"])
+        if not atom.get("f", "").startswith("std::"):
+            ta = _trivial_accessor(atom["f"])
+            subj = (_obj_name(atom["this"]) + ta[0]) if (ta and ta[1] == "empty") else None
+        if subj == X:
+            return (not pos) and Y is None and k <= 1
     ops = None
     a = b = None
     if kind == "bin" and atom.get("op") in ("<", "<=", ">", ">=", "==", "!="):
@@ -137,8 +214,7 @@ def _implies_size_ge(atom, pos, X, k, Y=None):
 
 def guard_edges(fn, X, k, Y=None):
     from . import gates as G
-    _ALIAS.clear()
-    _ALIAS.update(size_aliases(fn))
+    _prepare(fn)
     return G.edges_where(fn, lambda atom, truth: _implies_size_ge(atom, truth, X, k, Y))
 
 
@@ -153,9 +229,15 @@ def judge_need(fn, node, X, k):
     return ok, ("guarded by a test implying %s" % need) if ok else ("no test implying %s dominates it" % need), need
 
 
-def sites(fn):
+def _prepare(fn):
     _ALIAS.clear()
+    _SUBJ.clear()
+    _SUBJ.update(local_subjects(fn))
     _ALIAS.update(size_aliases(fn))
+
+
+def sites(fn):
+    _prepare(fn)
     """Yield (call node, method, classification or None) for position-taking string calls."""
     for n in fn.walk():
         if n.get("k") == "call" and n.get("f", "").startswith("std::basic_string::") and callee_short(n) in POS_METHODS and "this" in n:
@@ -170,9 +252,8 @@ def sites(fn):
 
 def judge(fn, call, cls):
     """-> (ok, description, need) for a classified site."""
-    _ALIAS.clear()
-    _ALIAS.update(size_aliases(fn))
-    X = show(peel(call["this"]))
+    _prepare(fn)
+    X = subject(call["this"])
     if cls[0] == "lit":
         k = cls[1]
         if k <= 0:
